@@ -68,10 +68,10 @@ def build_world(tmpdir, small=False):
             log2 = level + 0.06 * _noise(i, ci)
             depth = round(100 * 2**log2, 4)
             weight = round(0.55 + 0.4 * abs(_noise(i, ci + 7)), 4)
-            if (ci, i) in ((0, 0), (1, 7)):
-                log2, depth = -25.0, 0.0  # null coverage bins (one at an edge)
-            if (ci, i) == (2, 3):
-                weight = 0.0
+            if (ci, i) in ((0, 0), (1, 7), (1, 0)):
+                log2, depth = -25.0, 0.0  # null coverage bins (at the genome's first bin, inside chr2, and at chr2's first bin)
+            if (ci, i) in ((2, 3), (1, 0)):
+                weight = 0.0  # zero-weight bins: one inside chr3, one at chr2's first bin (dropped by every method's default filter)
             rows.append((chrom, start, end, gene, round(log2, 6), depth, weight))
     cols = ["chromosome", "start", "end", "gene", "log2", "depth", "weight"]
     W["cnr"] = CNA.from_rows(rows, cols, {"sample_id": "S1"})
